@@ -2,6 +2,7 @@
 import re
 
 from analysis.facts import strip_generics, AnchorMissing
+from analysis.guards import dominating_conditions
 from . import routing as R
 from . import C05 as _C05
 
